@@ -44,15 +44,23 @@ def item_sizes(param, items):
         if size is None or size[1]() is not item:
             # weak references: the memo must not keep dropped items alive (object identities are meant to be reused)
             try:
-                size = (param.get_item_size(item), weakref.ref(item))
+                size = (measured(param, item), weakref.ref(item))
             except TypeError:
-                total += param.get_item_size(item)
+                total += measured(param, item)
                 continue
             if len(_SIZE_MEMO) > 200000:
                 _SIZE_MEMO.clear()
             _SIZE_MEMO[key] = size
         total += size[0]
     return total
+
+
+def measured(param, item):
+    """Wire size of one item, measured on the item itself where it can compose (independent of whatever the vector parameter
+    remembers about it); the parameter's own rule otherwise (names, code points)."""
+    if type(param).__name__ in ('VectorParamParsable', 'ListParamParsable') and hasattr(item, 'compose'):
+        return len(bytes(item.compose()))
+    return param.get_item_size(item)
 
 
 def forget(item):
